@@ -3616,6 +3616,10 @@ func restartSubtree(ctx context.Context, node *restartNode, parent *PID, tree *t
 	pid := node.pid
 	pid.cancelInFlightRequests(gerrors.ErrRequestCanceled)
 	_, wasInTree := tree.node(pid.ID())
+	// the shutdown embedded in the restart of a running actor resets the
+	// counters; remember the restart count so that it is bumped, not restarted
+	// from one
+	restarts := pid.restartCount.Load()
 	didShutdown := false
 	if pid.IsRunning() {
 		if err := pid.Shutdown(ctx); err != nil {
@@ -3681,7 +3685,7 @@ func restartSubtree(ctx context.Context, node *restartNode, parent *PID, tree *t
 	pid.setState(suspendedState, false)
 	pid.startPassivation()
 
-	pid.restartCount.Inc()
+	pid.restartCount.Store(restarts + 1)
 	pid.fireSystemMessage(ctx, new(PostStart))
 	if pid.eventsStream != nil {
 		pid.eventsStream.Publish(eventsTopic, NewActorRestarted(pid.Path()))
